@@ -114,3 +114,113 @@ Definition racy_reported : list (string * string) :=
 (** the only cells accepted as NOT guarded are debug-only tools *)
 Definition debug_unguarded : list (string * string) :=
   map row_key (filter (fun r => match snd (fst r) with GDebugUnguarded => true | _ => false end) guard_table).
+
+(** ** use sites of the writers of UNSYNCHRONISED global cells
+
+    The cells of class [GSetupOnly] (MemRegistry, ScopedMpiInit status, logger
+    handles, device activation) and the Environment map when it is accessed
+    directly are safe only because nothing on a per-stream path touches them.
+    [unsync_uses] (translator) lists every call site in src/ of the accessor
+    functions / RAII classes that write them, with its enclosing function and
+    a flag "the enclosing function is on a per-stream path" (CoreState /
+    Stepper / AuxStateVec / StreamStore / state-store construction, resize of
+    state data, step / begin_run / create_state / process_steps / executors).
+    Every site must be reviewed here, keyed by (file, function, api), and NO
+    site may carry the per-stream flag: a new use on a per-stream path (or
+    anywhere else) breaks [unsync_cells_not_used_per_stream]. *)
+Definition unsync_use_reviewed : list (string * string * string * string) :=
+  [
+    ("corecel/sys/Device.cc", "activate_device", "activate_device",
+     "activate_device overloads delegating to each other; device activation happens once at start-up, serialised by a mutex");
+    ("corecel/sys/Environment.cc", "getenv", "environment()",
+     "holds getenv_mutex (std::scoped_lock) around the access");
+    ("corecel/sys/Environment.cc", "getenv_flag", "environment()",
+     "holds getenv_mutex (std::scoped_lock) around the access");
+    ("corecel/sys/KernelParamCalculator.device.cc", "KernelParamCalculator::register_kernel", "kernel_registry()",
+     "device only; KernelRegistry::insert locks kernels_mutex_");
+    ("corecel/sys/ScopedMem.hh", "(class scope) ScopedMem", "ScopedMem",
+     "the RAII class itself (default registry argument / delegating constructor)");
+    ("corecel/sys/ScopedMem.hh", "ScopedMem::ScopedMem", "mem_registry()",
+     "the RAII class itself (default registry argument / delegating constructor)");
+    ("celeritas/em/model/SeltzerBergerModel.cc", "SeltzerBergerModel::SeltzerBergerModel", "ScopedMem",
+     "constructor / builder of shared problem data: runs once on the setup thread before any stream exists");
+    ("celeritas/em/params/AtomicRelaxationParams.cc", "AtomicRelaxationParams::AtomicRelaxationParams", "ScopedMem",
+     "constructor / builder of shared problem data: runs once on the setup thread before any stream exists");
+    ("celeritas/em/params/UrbanMscParams.cc", "UrbanMscParams::UrbanMscParams", "ScopedMem",
+     "constructor / builder of shared problem data: runs once on the setup thread before any stream exists");
+    ("celeritas/em/params/WentzelOKVIParams.cc", "WentzelOKVIParams::WentzelOKVIParams", "ScopedMem",
+     "constructor / builder of shared problem data: runs once on the setup thread before any stream exists");
+    ("celeritas/em/params/WentzelVIMscParams.cc", "WentzelVIMscParams::WentzelVIMscParams", "ScopedMem",
+     "constructor / builder of shared problem data: runs once on the setup thread before any stream exists");
+    ("celeritas/ext/GeantImporter.cc", "GeantImporter::operator()", "ScopedMem",
+     "Geant4 / ROOT / VecGeom code, not compiled in this build; import / geometry conversion at setup");
+    ("celeritas/ext/GeantSetup.cc", "GeantSetup::GeantSetup", "ScopedMem",
+     "Geant4 / ROOT / VecGeom code, not compiled in this build; import / geometry conversion at setup");
+    ("celeritas/ext/RootExporter.cc", "RootExporter::RootExporter", "ScopedMem",
+     "Geant4 / ROOT / VecGeom code, not compiled in this build; import / geometry conversion at setup");
+    ("celeritas/ext/RootExporter.cc", "RootExporter::operator()", "ScopedMem",
+     "Geant4 / ROOT / VecGeom code, not compiled in this build; import / geometry conversion at setup");
+    ("celeritas/ext/RootFileManager.cc", "RootFileManager::RootFileManager", "ScopedMem",
+     "Geant4 / ROOT / VecGeom code, not compiled in this build; import / geometry conversion at setup");
+    ("celeritas/ext/RootImporter.cc", "RootImporter::RootImporter", "ScopedMem",
+     "Geant4 / ROOT / VecGeom code, not compiled in this build; import / geometry conversion at setup");
+    ("celeritas/ext/RootImporter.cc", "RootImporter::operator()", "ScopedMem",
+     "Geant4 / ROOT / VecGeom code, not compiled in this build; import / geometry conversion at setup");
+    ("celeritas/geo/GeoMaterialParams.cc", "GeoMaterialParams::GeoMaterialParams", "ScopedMem",
+     "constructor / builder of shared problem data: runs once on the setup thread before any stream exists");
+    ("celeritas/global/CoreParams.cc", "CoreParams::CoreParams", "ScopedMem",
+     "CoreParams constructor: once, before any stream exists");
+    ("celeritas/global/CoreParams.cc", "CoreParams::CoreParams", "kernel_registry()",
+     "CoreParams constructor registers the registry as an OUTPUT interface by const reference (read at output time, after the run)");
+    ("celeritas/global/CoreParams.cc", "CoreParams::CoreParams", "mem_registry()",
+     "CoreParams constructor registers the registry as an OUTPUT interface by const reference (read at output time, after the run)");
+    ("celeritas/global/CoreParams.cc", "CoreParams::CoreParams", "environment()",
+     "CoreParams constructor registers the registry as an OUTPUT interface by const reference (read at output time, after the run)");
+    ("celeritas/mat/MaterialParams.cc", "MaterialParams::MaterialParams", "ScopedMem",
+     "constructor / builder of shared problem data: runs once on the setup thread before any stream exists");
+    ("celeritas/optical/CoreParams.cc", "CoreParams::CoreParams", "ScopedMem",
+     "constructor / builder of shared problem data: runs once on the setup thread before any stream exists");
+    ("celeritas/phys/CutoffParams.cc", "CutoffParams::CutoffParams", "ScopedMem",
+     "constructor / builder of shared problem data: runs once on the setup thread before any stream exists");
+    ("celeritas/phys/ParticleParams.cc", "ParticleParams::ParticleParams", "ScopedMem",
+     "constructor / builder of shared problem data: runs once on the setup thread before any stream exists");
+    ("celeritas/phys/PhysicsParams.cc", "PhysicsParams::PhysicsParams", "ScopedMem",
+     "constructor / builder of shared problem data: runs once on the setup thread before any stream exists");
+    ("orange/OrangeParams.cc", "OrangeParams::OrangeParams", "ScopedMem",
+     "constructor / builder of shared problem data: runs once on the setup thread before any stream exists");
+    ("orange/g4org/PhysicalVolumeConverter.cc", "PhysicalVolumeConverter::operator()", "ScopedMem",
+     "Geant4 / ROOT / VecGeom code, not compiled in this build; import / geometry conversion at setup");
+    ("orange/orangeinp/InputBuilder.cc", "InputBuilder::operator()", "ScopedMem",
+     "constructor / builder of shared problem data: runs once on the setup thread before any stream exists");
+    ("geocel/GeantGeoUtils.cc", "load_geant_geometry_impl", "ScopedMem",
+     "Geant4 / ROOT / VecGeom code, not compiled in this build; import / geometry conversion at setup");
+    ("geocel/GeantGeoUtils.cc", "write_geant_geometry", "ScopedMem",
+     "Geant4 / ROOT / VecGeom code, not compiled in this build; import / geometry conversion at setup");
+    ("geocel/g4/GeantGeoParams.cc", "GeantGeoParams::GeantGeoParams", "ScopedMem",
+     "Geant4 / ROOT / VecGeom code, not compiled in this build; import / geometry conversion at setup");
+    ("geocel/g4/GeantGeoParams.cc", "GeantGeoParams::build_metadata", "ScopedMem",
+     "Geant4 / ROOT / VecGeom code, not compiled in this build; import / geometry conversion at setup");
+    ("geocel/g4vg/Converter.cc", "Converter::operator()", "ScopedMem",
+     "Geant4 / ROOT / VecGeom code, not compiled in this build; import / geometry conversion at setup");
+    ("geocel/vg/VecgeomParams.cc", "VecgeomParams::VecgeomParams", "ScopedMem",
+     "Geant4 / ROOT / VecGeom code, not compiled in this build; import / geometry conversion at setup");
+    ("geocel/vg/VecgeomParams.cc", "VecgeomParams::build_volumes_vgdml", "ScopedMem",
+     "Geant4 / ROOT / VecGeom code, not compiled in this build; import / geometry conversion at setup");
+    ("geocel/vg/VecgeomParams.cc", "VecgeomParams::build_tracking", "ScopedMem",
+     "Geant4 / ROOT / VecGeom code, not compiled in this build; import / geometry conversion at setup");
+    ("geocel/vg/VecgeomParams.cc", "VecgeomParams::build_data", "ScopedMem",
+     "Geant4 / ROOT / VecGeom code, not compiled in this build; import / geometry conversion at setup");
+    ("geocel/vg/VecgeomParams.cc", "VecgeomParams::build_metadata", "ScopedMem",
+     "Geant4 / ROOT / VecGeom code, not compiled in this build; import / geometry conversion at setup")
+  ].
+Definition use_key (u : string * string * string * bool) : string * string * string := fst u.
+Definition key3_eqb (a b : string * string * string) : bool :=
+  String.eqb (fst (fst a)) (fst (fst b)) && String.eqb (snd (fst a)) (snd (fst b)) && String.eqb (snd a) (snd b).
+Definition use_reviewed (u : string * string * string * bool) : bool :=
+  existsb (fun r => key3_eqb (fst r) (use_key u)) unsync_use_reviewed.
+Definition unsync_cells_not_used_per_stream_b : bool :=
+  forallb (fun u => use_reviewed u && negb (snd u)) unsync_uses.
+Definition unsync_uses_offending : list (string * string * string * bool) :=
+  filter (fun u => negb (use_reviewed u && negb (snd u))) unsync_uses.
+Definition unsync_use_rows_current_b : bool :=
+  forallb (fun r => existsb (fun u => key3_eqb (fst r) (use_key u)) unsync_uses) unsync_use_reviewed.
